@@ -12,7 +12,7 @@ S=/root/scratch/mx
 IDS="C03 C04 C05 C06 C09 C10 C11 C12 C16 C17 C18 C20"
 rm -rf "$S"; git -C /repo worktree prune; mkdir -p "$S"
 if [ "$MODE" = seeded ]; then
-    ls -d "$ROOT"/seeded/[CRSTUVW]*_[a-z] "$ROOT"/seeded/own/m* 2>/dev/null > "$S/list"
+    ls -d "$ROOT"/seeded/[CRSTUVWXYZ]*_[a-z] "$ROOT"/seeded/own/m* 2>/dev/null > "$S/list"
 else
     ls -d "$ROOT"/seeded/preserving/* > "$S/list"
 fi
